@@ -21,10 +21,18 @@ POLICIES = ("first", "last", "likely", "unlikely")
 def make_run(cfg):
     from phyclone.tree import Tree
 
+    start = None
+    if cfg.get("start") is not None:
+        start = oracle.all_states(cfg["n"], outliers=True)[cfg["start"]]
+        cfg = {k: v for k, v in cfg.items() if k != "start"}
+
     def run(rng):
         S.clear_caches()
         try:
-            out, data = chain.run_chain(cfg, rng)
+            if start is not None:
+                out, data = chain.run_main_from(cfg, rng, start)
+            else:
+                out, data = chain.run_chain(cfg, rng)
         except Exception as e:
             import traceback
 
@@ -102,7 +110,7 @@ def grid_b():
 def main(tier, seed):
     chk = Check("C19", tier, seed)
     chk.rule = ("run_phyclone_chain under EnumRNG + virtual clock. Grid A (972 configs, full cross): data points {1,2,3} x proposal x particles {1,2,3} x resample threshold "
-                "{0,.5,1} x outlier probability {0,1e-4,.5,1} x subtree-update probability {0,.5,1}. Grid B (384 configs): thin x burn-in x time limit {0,inf} x concentration "
+                "{0,.5,1} x outlier probability {0,1e-4,.5,1} x subtree-update probability {0,.5,1}. Grid C: the real main loop (_run_main_sampler, 2 iterations) started from EVERY tree over 3 data points x proposal x subtree-update probability {0,1}, outlier modelling on. Grid B (384 configs): thin x burn-in x time limit {0,inf} x concentration "
                 "update x samples {1,2} x data-point/prune-regraft sample counts {0,1} x proposal. Every config: deviation bound 0 under 4 default policies; bound 1 "
                 "(quick: Grid A with <=2 data points + every 3rd other config, capped) / bound 2 for single-data-point configs (thorough); non-trivial = config whose exploration ran >= 2 executions")
     chk.assumptions = ["deviation-bounded: not every random outcome of a whole run is enumerated; the completed bound is reported", "iterations 2-3, burn-in 1-2: long-run behaviour is not covered",
@@ -125,6 +133,19 @@ def main(tier, seed):
     for k, cfg in enumerate(B):
         if tier == "thorough" or k % 4 == 0:
             items.append((cfg, "likely", 1, cap))
+    # Grid C: the real main loop started from EVERY tree over 3 data points (any of them can come out of burn-in)
+    C = []
+    n_states = len(oracle.all_states(3, outliers=True))
+    for si in range(n_states):
+        for k, prop in enumerate(("bootstrap", "semi-adapted", "fully-adapted")):
+            for sp in (0.0, 1.0):
+                if tier == "quick" and (si + k) % 3 and sp == 0.0:
+                    continue
+                C.append(dict(n=3, proposal=prop, N=2, threshold=0.5, outlier_prob=0.3, subtree_prob=sp, iters=2, conc_update=bool((si + k) % 2), start=si))
+    for cfg in C:
+        items.append((cfg, "first", 0, None))
+        items.append((cfg, "unlikely", 0, None))
+        items.append((cfg, "likely", 1, cap))
     items.sort(key=lambda it: -(it[2] * 10 + it[0].get("n", 2)))
     nexec = 0
     capped = 0
@@ -143,7 +164,7 @@ def main(tier, seed):
             what = pr["problems"][0]
             chk.violation({"sub": "run", "what": what.split("@")[0].split(":")[0][:40] + ":" + (what.split(":")[1][:30] if ":" in what else ""), "n": cfg.get("n"), "proposal": cfg.get("proposal")},
                           {"config": cfg, "problem": pr}, {"config": cfg, "choices": pr["choices"], "policy": pr["policy"]})
-    chk.note("configs", len(A) + len(B))
+    chk.note("configs", len(A) + len(B) + len(C))
     chk.note("explorations", len(items))
     chk.note("explorations_that_hit_the_execution_cap", capped)
     chk.caps.append("deviation bound 0 (4 policies) for all %d configs; bound 1 on the subset described in rule with an execution cap of %d per exploration (%d explorations hit it)" % (len(A) + len(B), cap, capped))
